@@ -19,6 +19,8 @@ theorem coil_dim_eq : coil_dim = 1 := by decide
 
 theorem loglik_plan_eq : loglik_plan = loglikPlan := by decide
 theorem loglik_default_scaling : loglik_default_scaling_is_one = true := by decide
+/-- a per-sample `loglikelihood_scaling` of shape `(N,)` is broadcast along the batch axis (`reshape(-1, 1, 1, 1, 1)`) -/
+theorem loglik_scaling_batch_axis : loglik_scaling_on_batch_axis = true := by decide
 theorem a_star_plan_eq : a_star_plan = aStarPlan := by decide
 theorem a_star_a_plan_eq : a_star_a_plan = aStarAPlan := by decide
 theorem b_op_plan_eq : b_op_plan = bOpPlan := by decide
